@@ -60,7 +60,9 @@ def enumerated(tier):
                         if a == 'ins':
                             prog.append(['add', 0, 1, {'a': val}])
                         elif a == 'upd':
-                            prog.append(['set', 0, 1, {'b': val}])
+                            # after a (re-)insert the update touches the column the insert was given, so that the
+                            # column it left unset stays unset; otherwise the other column
+                            prog.append(['set', 0, 1, {('a' if i > 0 and seq[i - 1] == 'ins' else 'b'): val}])
                         else:
                             prog.append(['del', 0, 1])
                         val += 1
